@@ -47,7 +47,9 @@ fn gen_case(mode: &str, seed: u64, idx: u64, tier: &str) -> Case {
             if idx % 5 == 0 {
                 gen::gen_model(&mut r, &Profile::clause_heavy())
             } else {
-                gen::gen_hard(&mut r)
+                // (each model is solved under up to 40 configurations, some of which run into the poll
+                // budget, so the search space is kept smaller than elsewhere)
+                gen::gen_hard_bounded(&mut r, 8_000.0)
             }
         }
         "c08" => {
